@@ -163,22 +163,22 @@ def coq_term(case, model):
     if len(case) > 400:
         return None
     # `i:` arguments produced by I(int) are canonical, so the raw pair is what the model sees
-    un_i = {"sg.neg": "ineg", "sg.abs": "iabs", "sg.signum": "isignum", "sg.i_set_zero": "iset_zero",
+    un_i = {"sg.neg": "ineg", "sg.abs": "iabs signs", "sg.signum": "isignum signs", "sg.i_set_zero": "iset_zero",
             "sg.i_set_one": "iset_one"}
     if op in un_i:
         return "%s %s" % (un_i[op], coq_bigint(a[1])), coq_bigint(model.split(" ")[1])
-    un_b = {"sg.is_positive": "is_positive", "sg.is_negative": "is_negative", "sg.i_is_zero": "iis_zero",
+    un_b = {"sg.is_positive": "is_positive signs", "sg.is_negative": "is_negative signs", "sg.i_is_zero": "iis_zero signs",
             "sg.i_is_one": "iis_one"}
     if op in un_b:
         return "%s %s" % (un_b[op], coq_bigint(a[1])), _bool(model)
     if op == "sg.abs_sub":
-        return "abs_sub addsub %s %s" % (coq_bigint(a[1]), coq_bigint(a[2])), coq_result(model)
+        return "abs_sub signs addsub %s %s" % (coq_bigint(a[1]), coq_bigint(a[2])), coq_result(model)
     if op == "sg.cmp":
-        return "icmp %s %s" % (coq_bigint(a[1]), coq_bigint(a[2])), coq_result(model)
+        return "icmp signs %s %s" % (coq_bigint(a[1]), coq_bigint(a[2])), coq_result(model)
     if op == "sg.to_biguint":
-        return "to_biguint %s" % coq_bigint(a[1]), _opt(model, coq_list)
+        return "to_biguint signs %s" % coq_bigint(a[1]), _opt(model, coq_list)
     if op == "sg.try_from":
-        return "try_into_biguint %s" % coq_bigint(a[1]), _opt(model, coq_list)
+        return "try_into_biguint signs %s" % coq_bigint(a[1]), _opt(model, coq_list)
     if op in ("sg.new", "sg.from_slice"):
         return "i_from_slice %s %s" % (SIGN_COQ[a[0]], _words(a[1])), coq_bigint(model.split(" ")[1])
     if op == "sg.assign_from_slice":
